@@ -512,8 +512,12 @@ package core
 //@   pure
 //@ assume func (BuildTarget).DeclaredNamedOutputs
 //@   pure
-//@ assume func (BuildTarget).DeclaredOutputNames
+// DeclaredOutputNames: the names of the named outputs in sorted order (its value is a function of the target: `pure`).
+//@ func (BuildTarget).DeclaredOutputNames
 //@   pure
+//@   requires target != nil
+//@   opt nopanic=off
+//@   ensures sorted [C07]: forall i int :: 0 < i && i < len(result) ==> result[i-1] <= result[i]
 //@ func (BuildTarget).IsTest
 //@   requires target != nil
 //@   modifies nothing
@@ -566,3 +570,9 @@ package core
 //@   callsite os.Getenv never [C10]: false
 //@   callsite os.LookupEnv never [C10]: false
 //@   callsite os.Environ never [C10]: false
+
+// allBuildInputs: named groups are appended in sorted key order, never in map order.
+//@ func (BuildTarget).allBuildInputs
+//@   opt nopanic=off
+//@   invariant "range keys" in_key_order [C07]: forall i int :: 0 < i && i < len(keys) ==> keys[i-1] <= keys[i]
+//@   ensures keys_sorted [C07]: forall i int :: 0 < i && i < len(keys) ==> keys[i-1] <= keys[i]
